@@ -75,6 +75,12 @@ type Family struct {
 	Rule      string
 	ExtraCfg  func(tier string) string // extra CONSTANTS lines for the MC cfg
 	Assume    []string
+	Unbounded []ApaCheck // Apalache (SMT) checks of the same case analysis over unbounded integers
+}
+
+// ApaCheck is one `apalache-mc check --length=0 --init=Init --inv=Inv` run with its expected outcome.
+type ApaCheck struct {
+	Module, Inv, Expect, What string
 }
 
 // Extra names another MC module to enumerate, with its own constants and an optional sampling fraction.
